@@ -376,6 +376,16 @@ pub fn run(tier: &str) -> Result<Report, String> {
             deep.push(format!("!{{{}{}}}: AX {{x}}", "x".repeat(i), ch.repeat(120)));
         }
     }
+    // every kind of Unicode white space in every gap of a hybrid operator's header (valid formulae)
+    for ws in ["\u{a0}", "\u{2003}", "\u{b}", "\u{85}", "\u{3000}", "\u{202f}", "\t\u{a0}\n"] {
+        for (op, long) in [("!", "\\bind"), ("3", "\\exists"), ("V", "\\forall")] {
+            deep.push(format!("{op}{ws}{{x}}{ws}:{ws}AX{ws}{{x}}"));
+            deep.push(format!("{op}{ws}{{x}}{ws}in{ws}%d%{ws}:{ws}(%p%{ws}|{ws}AX {{x}})"));
+            deep.push(format!("{long}{ws}{{x}}{ws}in{ws}%d%{ws}:{ws}EX {{x}}"));
+            deep.push(format!("{op}{{x}}:{ws}@{ws}{{x}}{ws}:{ws}a"));
+            deep.push(format!("{op}{{x}}:{ws}\\jump{ws}{{x}}{ws}:{ws}a"));
+        }
+    }
     deep.push("!{x}: !{xx}: !{xxx}: !{xxxx}: ({x} & {xxxx})".into());
     deep.push("!{x}: !{xx}: !{xxx}: ({x} & {xxx})".into());
     for s in &deep {
@@ -428,7 +438,7 @@ pub fn run(tier: &str) -> Result<Report, String> {
     rep.sample(json!({"input": "!{x}: @{y}: a", "expected": "Err from every entry point (free jump target), for every k"}));
     rep.sample(json!({"input": "3{y} in %d%: ~ {y}", "labels_present": ["p"], "expected": "Err (domain d has no context set)"}));
     rep.sample(json!({"input": "3{y} in %d%: ~ {y}", "labels_present": ["p", "d"], "k": 0, "expected": "Err (needs 1 spare variable set)"}));
-    rep.rule = format!("(a) every sequence of 1..{t} tokens over {TOKENS:?} and every string of 1..{k} symbols over {CHARS:?} through all 25 string entry points (plain, dirty, multiple, extended, unsafe_ex, callback variants, lists [valid,s] / [s,valid] with a short and with a tall valid formula) on graphs with k=0,2 (k=0..3 when the grammar derives the string) spare variable sets; (a2) every sequence of <= 3 (4) tokens over {{EF_x, _x, EF, AG_x, EX_x, AG, ~, &, EU_x, EU, (, ), AX_, x}} on a network with the variables EF_x and _x; (b) every closed extended formula with <= {m} nodes x every subset of its required labels (sets: mixed / empty / full / colour-disjoint families) x k in {{depth-1, depth, 3}}; (b2) every tree with at most 5 (thorough 7) nodes over the binder-focused alphabet {{a, x, y, AX, &, !, 3, V, @}} printed and given to all 25 entry points (ill-scoped: Err; well-scoped: Ok when k suffices); (c) {} deep / long inputs (nesting 10 and 40; long names of 2-, 3- and 4-byte characters at every byte alignment). Oracle: Ok iff reference parser accepts, scope rules hold, all labels present and k >= nesting depth; Err otherwise; a panic is always a violation. distinct_nontrivial = number of enumerated strings the grammar derives", deep.len());
+    rep.rule = format!("(a) every sequence of 1..{t} tokens over {TOKENS:?} and every string of 1..{k} symbols over {CHARS:?} through all 25 string entry points (plain, dirty, multiple, extended, unsafe_ex, callback variants, lists [valid,s] / [s,valid] with a short and with a tall valid formula) on graphs with k=0,2 (k=0..3 when the grammar derives the string) spare variable sets; (a2) every sequence of <= 3 (4) tokens over {{EF_x, _x, EF, AG_x, EX_x, AG, ~, &, EU_x, EU, (, ), AX_, x}} on a network with the variables EF_x and _x; (b) every closed extended formula with <= {m} nodes x every subset of its required labels (sets: mixed / empty / full / colour-disjoint families) x k in {{depth-1, depth, 3}}; (b2) every tree with at most 5 (thorough 7) nodes over the binder-focused alphabet {{a, x, y, AX, &, !, 3, V, @}} printed and given to all 25 entry points (ill-scoped: Err; well-scoped: Ok when k suffices); (c) {} deep / long inputs (nesting 10 and 40; long names of 2-, 3- and 4-byte characters at every byte alignment; 7 kinds of Unicode white space in every gap of every hybrid operator header). Oracle: Ok iff reference parser accepts, scope rules hold, all labels present and k >= nesting depth; Err otherwise; a panic is always a violation. distinct_nontrivial = number of enumerated strings the grammar derives", deep.len());
     rep.assumptions.push("context sets satisfy the documented precondition (inside the unit set, independent of auxiliary variables)".into());
     Ok(rep)
 }
